@@ -191,18 +191,18 @@ type genBatch struct {
 }
 
 type genAgg struct {
-	Programs, Dropped int
-	Evaluations       int
+	Programs, Dropped          int
+	Evaluations                int
 	Calls, Args, Emits, States int64
-	ByTag             map[string]int
-	NonTrivial        int
-	Distinct          map[uint64]struct{}
-	Features          map[string]int
-	MaxHWM            map[string]int
-	Samples           []json.RawMessage
-	Crashes           int
-	RaceReports       int
-	DroppedWhy        map[string]string
+	ByTag                      map[string]int
+	NonTrivial                 int
+	Distinct                   map[uint64]struct{}
+	Features                   map[string]int
+	MaxHWM                     map[string]int
+	Samples                    []json.RawMessage
+	Crashes                    int
+	RaceReports                int
+	DroppedWhy                 map[string]string
 }
 
 // runGen runs the corpus' runner over all programs and feeds violations of
@@ -215,7 +215,10 @@ func runGen(c *ctx, co *corpus, tags string, per int, race bool) *genAgg {
 	if race {
 		perBatch = 6
 	}
-	type job struct{ from, count int; out, prog string }
+	type job struct {
+		from, count int
+		out, prog   string
+	}
 	var jobs []job
 	var args [][]string
 	procs := []int{16, 8, 2, 4, 16, 3}
